@@ -218,6 +218,12 @@ def classify(c, cr, ref):
         return "KF-C05-star-empty-ifs"
     if ESC_DOLLAR_Q.search(c.text):
         return "KF-C05-escaped-dollar-quote"
+    if bracket_across(c):
+        return "KF-C05-bracket-across-quotes"
+    # "${a[@]+''}"-style: a quoted-null default/alternative of a [@] expansion is removed by bash like "$@"
+    for p in flatp:
+        if p[0] == "P" and p[1][0] in ("d", "a") and p[1][2][0] in ("@", "R") and p[1][3] in ("''", '""'):
+            return "KF-C05-dq-at-null"
     # ${@:+w} ${a[@]:-w}: a list of two or more empty elements is not null in bash (they print as blanks)
     for p in flatp:
         if p[0] == "P" and p[1][0] in ("d", "a") and p[1][1] and p[1][2][0] in ("@", "R", "*", "S"):
@@ -260,6 +266,19 @@ def classify(c, cr, ref):
         if "$@" in wtext or "$*" in wtext or "[@]" in wtext:
             return "KF-C05-list-in-default-word"
     return None
+
+
+def bracket_across(c):
+    """a top-level literal piece leaves a [ unclosed and a later top-level literal piece has a ]"""
+    open_seen = False
+    for p in c.word:
+        if p[0] == "T":
+            t = p[1]
+            if open_seen and "]" in t:
+                return True
+            if "[" in t and "]" not in t[t.rindex("["):]:
+                open_seen = True
+    return False
 
 
 def py_known_at_null(c):
@@ -399,9 +418,12 @@ def evaluate(ctx, cases, bash_all=False, bash_sample=1500):
         if sr[0] == "UNSUPPORTED" or b == ("TIMEOUT",):
             continue
         svb["compared"] += 1
-        svb["spec_eq_bash" if sr == b else "spec_ne_bash"] += 1
+        if sr != b and bracket_across(c):
+            svb["glob_matching_not_specified_here"] = svb.get("glob_matching_not_specified_here", 0) + 1
+        else:
+            svb["spec_eq_bash" if sr == b else "spec_ne_bash"] += 1
         svb["code_eq_bash" if cr == b else "code_ne_bash"] += 1
-        if sr != b and len(spec_wrong) < 40:
+        if sr != b and not bracket_across(c) and len(spec_wrong) < 40:
             spec_wrong.append({"input": describe(c), "spec": sr, "bash": b, "code": cr})
         if cr != b:
             v = {"input": describe(c), "why": "bash gives %r, code gave %r (spec %r)" % (b, cr, sr),
